@@ -10,6 +10,7 @@ boundaries — and `C20_ext_exact` says the file of a run is exactly the counts 
 START and its STOP.
 -/
 import DastardV.Props.C04
+import DastardV.Props.C03
 import DastardV.Props.C20
 namespace DastardV.Compose
 
@@ -56,5 +57,42 @@ theorem lancero_ext_triggers_to_file (ops : C04.FloatOps σ ρ) (zero : σ) (sca
     exact congrArg some (C04.C04_ext_trigger ops zero scaleOf g hg steps st).1
   · have := C20.C20_drop_lines pre (blocks.map logOp) rStart rStop v hpre hs hp hn
     rw [this, dropOf_blocks]
+
+/-! ### Abaco: the data-drop file -/
+
+/-- an Abaco block as the run-log model sees it (Abaco sources deliver no external triggers) -/
+def alogOp (b : C03.Block) : C20.Op := .block [] b.dropped b.first
+
+theorem dropOf_ablocks : ∀ (bs : List C03.Block),
+    C20.dropOf (bs.map alogOp) = bs.flatMap fun b => if (b.dropped : Int) > 0 then [(b.first, (b.dropped : Int))] else []
+  | [] => rfl
+  | b :: bs => by simp [C20.dropOf, alogOp, dropOf_ablocks bs]
+
+theorem extOf_ablocks : ∀ (bs : List C03.Block), C20.extOf (bs.map alogOp) = []
+  | [] => rfl
+  | b :: bs => by simp [C20.extOf, alogOp, extOf_ablocks bs]
+
+/-- **Abaco packet loss, from the packet history to the run's data-drop file.**  For every packet history
+processed between a START and a STOP: the data-drop file has exactly one line `(first frame, frames
+filled in)` per emitted block that reports filled-in frames, in order — and by `C03_dropped_count` those
+counts add up to exactly `fpp` per lost packet of every group —; the external-trigger file stays empty. -/
+theorem abaco_drops_to_file (blocks : List C03.Block)
+    (pre : List C20.Op) (rStart rStop : List Nat) (v : Bool)
+    (hpre : (C20.runOps C20.S.init pre).active = false)
+    (hs : C06.classify rStart = .start) (hp : C06.classify rStop = .stop) :
+    let fin := C20.runOps C20.S.init (pre ++ [.req rStart true] ++ blocks.map alogOp ++ [.req rStop v])
+    fin.done.getLast?.map (·.drop) =
+      some (blocks.flatMap fun b => if (b.dropped : Int) > 0 then [(b.first, (b.dropped : Int))] else []) ∧
+    fin.done.getLast?.map (·.ext) = some [] := by
+  intro fin
+  have hn : C20.NoStop (blocks.map alogOp) := by
+    intro o ho
+    obtain ⟨b, _, rfl⟩ := List.mem_map.mp ho
+    rfl
+  refine ⟨?_, ?_⟩
+  · have := C20.C20_drop_lines pre (blocks.map alogOp) rStart rStop v hpre hs hp hn
+    rw [this, dropOf_ablocks]
+  · have := C20.C20_ext_exact pre (blocks.map alogOp) rStart rStop v hpre hs hp hn
+    rw [this, extOf_ablocks]
 
 end DastardV.Compose
